@@ -299,7 +299,7 @@ class Explorer:
     """Enumerates all paths of a task.  task(interp, run) builds the symbolic
     pre-state, runs the function under contract and emits obligations."""
 
-    def __init__(self, name, task, repo_root, prefix="", timeout_ms=20000, max_paths=4000,
+    def __init__(self, name, task, repo_root, prefix="", timeout_ms=12000, max_paths=4000,
                  witness=None, alt_solver=None, source_cache=None):
         self.name = name
         self.task = task
@@ -319,6 +319,7 @@ class Explorer:
         self.path_outcomes = []
         self.minimize = []
         self.canaries = []
+        self.on_path = None
 
     def run(self):
         self.pending = [[]]
@@ -329,6 +330,8 @@ class Explorer:
                 self.out_of_reach.append({"task": self.name, "what": "path budget exceeded"})
                 break
             self.run_path(dec)
+            if self.on_path is not None:
+                self.on_path(self)
         return self
 
     def run_path(self, dec):
